@@ -626,7 +626,17 @@ func (p *Program) inlineAt(cs *CallSite, cand *inlineCand, tag string, read func
 			return true
 		})
 		if hasLit {
-			return nil, nil, false
+			// `return func(...) {...}`: the literal captures the parameters, which
+			// the arguments may replace only when nothing can change them later
+			// and they can be repeated textually
+			if _, whole := unparen(cand.exprOnly).(*ast.FuncLit); !whole || !p.stableCallOperands(cs) {
+				return nil, nil, false
+			}
+			for _, b := range binds {
+				if !accessPath(b.expr) {
+					return nil, nil, false
+				}
+			}
 		}
 		var es []textEdit
 		ast.Inspect(cand.exprOnly, func(n ast.Node) bool {
@@ -647,7 +657,25 @@ func (p *Program) inlineAt(cs *CallSite, cand *inlineCand, tag string, read func
 		}
 		text := "(" + strings.ReplaceAll(string(b), "\n", " ") + ")"
 		rt := sig.Results().At(0).Type()
-		if tv := dinfo.Types[cand.exprOnly]; tv.Value != nil || !types.Identical(tv.Type, rt) {
+		needConv := true
+		if hasLit {
+			// the literal keeps its lines; positions inside it point into the helper,
+			// positions after it into the caller again
+			dpos := p.Fset.PositionFor(cand.exprOnly.Pos(), true)
+			epos := p.Fset.PositionFor(call.End(), true)
+			text = fmt.Sprintf("(/*line %s:%d:%d*/%s/*line %s:%d:%d*/)", dpos.Filename, dpos.Line, dpos.Column, string(b), epos.Filename, epos.Line, epos.Column)
+			// passed for a parameter of exactly the helper's result type: no conversion needed
+			if pc, isCall := p.Parent(caller.File, call).(*ast.CallExpr); isCall {
+				if psig, isSig := info.TypeOf(pc.Fun).(*types.Signature); isSig {
+					for i, a := range pc.Args {
+						if a == ast.Expr(call) && i < psig.Params().Len() && !(psig.Variadic() && i >= psig.Params().Len()-1) && types.Identical(psig.Params().At(i).Type(), rt) {
+							needConv = false
+						}
+					}
+				}
+			}
+		}
+		if tv := dinfo.Types[cand.exprOnly]; needConv && (tv.Value != nil || !types.Identical(tv.Type, rt)) {
 			ts := typeStr(rt)
 			if !okQ {
 				return nil, nil, false
